@@ -169,6 +169,59 @@ pub fn gen(tier: &str, r: &mut Rng) -> Vec<String> {
         lines.push("END".into());
         out.push(format!("c01 wf Loose 000 {}", enc_bytes((lines.join("\n") + "\n").as_bytes())));
     }
+    // SEQRES records: chains the records describe completely (one name per residue, numbered from the position the
+    // first name stands for, with or without a DBREF start) followed by hetero groups in any order - nothing may be
+    // added, dropped or moved; and chains with gaps, wrong names or other numbering (compared with the model only)
+    for k in 0..budget(tier, 60, 3000) {
+        let names = ["ALA", "GLY", "SER", "LYS", "CYS", "MSE"];
+        let complete = r.chance(1, 2);
+        let nch = 1 + r.below(2);
+        let mut head: Vec<String> = Vec::new();
+        let mut body: Vec<String> = Vec::new();
+        let mut serial = 0usize;
+        let nmodels = if r.chance(1, 5) { 2 } else { 1 };
+        let mut plan: Vec<(char, i64, Vec<&str>, Vec<(i64, bool)>, bool)> = Vec::new(); // chain, first number, names, hetero groups (number, water), dbref
+        for ci in 0..nch {
+            let ch = (b'A' + ci as u8) as char;
+            let big = r.chance(1, 6); let n = 1 + r.below(if big { 30 } else { 7 });
+            let with_db = r.chance(1, 3);
+            let start: i64 = if with_db { r.range(-3, 40) } else if complete { 0 } else { r.range(-2, 3) };
+            let seq: Vec<&str> = (0..n).map(|_| *r.pick(&names)).collect();
+            let hets: Vec<(i64, bool)> = (0..r.below(5)).map(|_| (start + n as i64 + r.range(1, 900), r.chance(2, 3))).collect();
+            plan.push((ch, start, seq, hets, with_db));
+        }
+        for (ch, start, seq, _, with_db) in &plan {
+            if *with_db { head.push(format!("DBREF  1ABC {} {:>4}  {:>4}  UNP    P12345   TEST_HUMAN   {:>5}  {:>5} ", ch, start, start + seq.len() as i64 - 1, 1, seq.len())); }
+        }
+        for (ch, _, seq, _, _) in &plan {
+            for (i, chunk) in seq.chunks(13).enumerate() { head.push(format!("SEQRES {:>3} {} {:>4}  {}", i + 1, ch, seq.len(), chunk.join(" "))); }
+        }
+        for mi in 0..nmodels {
+            if nmodels > 1 { body.push(pdbtext::model_line(mi + 1)); }
+            for (ch, start, seq, hets, _) in &plan {
+                for (i, nm) in seq.iter().enumerate() {
+                    // an incomplete chain: a residue left out, another name, or a number out of step
+                    let (mut name, mut num) = (nm.to_string(), start + i as i64);
+                    if !complete { match r.below(12) { 0 => continue, 1 => name = r.pick(&names).to_string(), 2 => num += r.range(1, 3), _ => {} } }
+                    for an in ["N", "CA"].iter().take(1 + r.below(2)) {
+                        serial += 1;
+                        let a = AtomRec { het: false, serial, name: an.to_string(), alt: ' ', resname: name.clone(), chain: *ch, resseq: num, icode: ' ', x: serial as i64 * 1000, y: 0, z: 0, occ: 1_000_000, b: 0, seg: String::new(), element: an[..1].to_string(), charge: 0, aniso: None };
+                        body.push(pdbtext::atom_line(&a, r, false));
+                    }
+                }
+                for (num, water) in hets {
+                    serial += 1;
+                    let a = AtomRec { het: true, serial, name: if *water { "O".into() } else { "ZN".into() }, alt: ' ', resname: if *water { "HOH".into() } else { "ZN".into() }, chain: *ch, resseq: *num, icode: ' ', x: serial as i64 * 1000, y: 0, z: 0, occ: 1_000_000, b: 0, seg: String::new(), element: if *water { "O".into() } else { "ZN".into() }, charge: 0, aniso: None };
+                    body.push(pdbtext::atom_line(&a, r, false));
+                }
+                body.push("TER".into());
+            }
+            if nmodels > 1 { body.push("ENDMDL".into()); }
+        }
+        body.push("END".into());
+        head.extend(body);
+        out.push(format!("c01 seqres {} {} {}", ["Loose", "Medium", "Strict"][k % 3], if complete { 1 } else { 0 }, enc_bytes((head.join("\n") + "\n").as_bytes())));
+    }
     // serial numbers wrapping past 99999 (atoms) and 9999 (residues)
     for k in 0..budget(tier, 1, 3) {
         let n_atoms = 100_050 + 7 * k;
@@ -283,11 +336,12 @@ pub fn exec(case: &str) -> Exec {
     let mut ex = Exec::new("", "");
     ex.tags.push(format!("kind:{kind}"));
     match kind.as_str() {
-        "wf" | "wrap" => {
+        "wf" | "wrap" | "seqres" => {
             let level = t.next().unwrap().to_string();
             let arg = t.next().unwrap().to_string();
             let bytes = dec_bytes(t.next().unwrap()).unwrap();
             let o = Opts::parse(&level, if kind == "wf" { &arg } else { "000" });
+            if kind == "seqres" { ex.tags.push(format!("seqres-complete:{arg}")); }
             let r = read("pdb", &o, &bytes);
             ex.resp = outcome_tok(&r);
             ex.req = if kind == "wrap" { "-".into() } else { format!("pdb read {} {} {}", level, o.flags(), enc_bytes(&bytes)) };
@@ -298,12 +352,13 @@ pub fn exec(case: &str) -> Exec {
                 Read::Err(d) => {
                     // a well-formed text may still be refused at stricter levels for its warnings; at Loose only
                     // genuine errors remain, and the generator produces none
-                    if level == "Loose" { ex.failures.push(Failure::new("well-formed-text-rejected-at-loose", diags_tok(d))); }
+                    if level == "Loose" && (kind != "seqres" || arg == "1") { ex.failures.push(Failure::new("well-formed-text-rejected-at-loose", diags_tok(d))); }
                     ex.tags.push("wf:rejected".into());
                 }
                 Read::Ok(p, _) => {
                     ex.tags.push("wf:accepted".into());
-                    match reference(&text) {
+                    // a chain the SEQRES records do not describe completely gets residues inserted: no expectation
+                    match if kind == "seqres" && arg != "1" { None } else { reference(&text) } {
                         None => ex.tags.push("reference-reader-declined".into()),
                         Some(want) => {
                             let mut got = from_impl(p);
